@@ -6,7 +6,10 @@ from props import _maps
 
 ID = 'C16'
 LEAN_MODULES = ['Proofs.C16']
-REQUIRED = ['C16.forward_none_iff', 'C16.chainVector_same_chain_iff', 'C16.cycle_vector_wf', 'C16.subsetVector_length',
+REQUIRED = ['C16.exact_cycle_to_samples', 'C16.exact_cycle_to_samples_label', 'C16.exact_subset_to_cycle',
+            'C16.exact_chain_to_subset', 'C16.exact_subset_to_sample', 'C16.exact_chain_to_cycle',
+            'C16.exact_chain_to_samples', 'C16.roundtrip_back_forth',
+            'C16.forward_none_iff', 'C16.chainVector_same_chain_iff', 'C16.cycle_vector_wf', 'C16.subsetVector_length',
             'C16.subsetVector_spec',
             'C16.subsetVector_size',
             'C16.subsetVector_unique',
